@@ -268,6 +268,28 @@ func genC11(r *hlib.Rng, n int, malformed int) In {
 	return in
 }
 
+// two rollups verified with the SAME exit root in different blocks (their branches of the rollup exit tree share nodes), the block of
+// the later verification reorganised away, then another rollup verified on the new fork: every rollup's exit root must still be the
+// last non-zero one verified for it and every recorded root the rollup manager's
+func genC11RepeatedExitReorg(r *hlib.Rng) In {
+	h := newHist(r)
+	in := In{Prop: "c11"}
+	e := rnd32(r)
+	vb := func(rid uint32, exit string) Op {
+		op := h.header()
+		op.Logs = []Log{{T: "vb", Idx: 1, RID: rid, Batch: uint64(1 + r.Intn(100)), SRoot: rnd32(r), Exit: exit, Agg: hlib.Hex(r.Bytes(20))}}
+		h.st.apply(op)
+		return op
+	}
+	in.Ops = append(in.Ops, vb(3, e), vb(1, e), snapOp())
+	last := in.Ops[1]
+	in.Ops = append(in.Ops, Op{K: "reorg", B: last.Num}, snapOp())
+	h.st = stateOf(liveBlocks(in.Ops))
+	h.num = last.Num - 1
+	in.Ops = append(in.Ops, vb(2, rnd32(r)), snapOp(), vb(1, rnd32(r)), snapOp())
+	return in
+}
+
 // the known root-recurrence history (F4): one rollup, exit roots A, B, A, in random surroundings
 func genF4(r *hlib.Rng) In {
 	h := newHist(r)
@@ -589,6 +611,7 @@ func generate(prop string, f *hlib.Flags) []In {
 			switch {
 			case i == 0:
 				ins = append(ins, genF4(r))
+				ins = append(ins, genC11RepeatedExitReorg(hlib.NewRng(f.Seed^0xc11a)))
 			case i == 1 || (f.Tier != "quick" && i%25 == 1):
 				ins = append(ins, genChain(r, 6+r.Intn(8)))
 			case i%6 == 5:
